@@ -16,7 +16,7 @@ CFG = dict(
          "Non-trivial = at least one record was emitted; distinct by input line.",
     nontrivial=["records"],
     jobs=seeds(1, 4),
-    lean_files=["Trig", "Pipe", "PipeJudge", "C02", "C09", "Pipe1", "Pipe2", "Edge", "Level", "Auto", "Passes", "TrigIdx", "EdgeGlobal", "LevelGlobal", "AutoDense", "AutoGlobal", "PipeProj", "Pipe3", "EmtRecs", "Reconf"],
+    lean_files=["Trig", "Pipe", "PipeJudge", "C02", "C09", "Pipe1", "Pipe2", "Edge", "Level", "Auto", "Passes", "TrigIdx", "EdgeGlobal", "LevelGlobal", "AutoDense", "AutoGlobal", "PipeProj", "Pipe3", "EmtRecs", "Reconf", "SoundGlobal"],
     trusted_base=_PIPE_TB,
     assumptions=["auto delay enters the model as an integer number of samples computed with the code's own expression",
                  "the auto-gap theorem is for no veto (as the property says); with a veto only no-crash/in-range is proved and the oracle judges nothing about gaps"],
@@ -34,7 +34,7 @@ MANIFEST = dict(
          "next scan start inside the retained buffer, previous scan ended no earlier than one delay after it). After ConfigureTriggers the run equals a fresh run on the RETAINED samples followed by the new blocks (runChan_prepend), so all three clauses also cover the tail of the earlier stream that could not be searched before the request (C02_after_reconfigure_full). ",
     note="Trusted: Lean 4.33 kernel (axioms propext, Classical.choice, Quot.sound only; audited every run); the hand-written model is tied to the Go code only by "
          "differential testing with seeded generators (not a proof). The edge, level and auto clauses are all proved across blocks for epochs started by a start or by ConfigureTriggers; "
-         "soundness of level/auto triggers in mixed settings is per block and by the oracle. Epochs started by ConfigurePulseLengths are covered by the oracle only. Two defects found by this "
+         "soundness is proved across blocks for every trigger combination (C02_sound). Epochs started by ConfigurePulseLengths are covered by the oracle only. Two defects found by this "
          "check were repaired in /repo (77b7098 retained history after a start with restored settings; 51926cc pseudo trigger at frame 0).",
     technique="Lean 4 theorems (scan-loop specifications + cross-block invariant) over an executable model; independent-scan oracle and model tied to the Go code by a differential correspondence run",
 )
@@ -45,6 +45,8 @@ THEOREMS = [
     ("DastardV.Props.C02", "DastardV.C02.C02_auto_gap"),
     ("DastardV.Props.C02", "DastardV.C02.C02_auto_dense"),
     ("DastardV.Props.C02", "DastardV.C02.C02_auto_gap_after_reconfigure"),
+    ("DastardV.Props.C02", "DastardV.C02.C02_sound"),
+    ("DastardV.Props.C02", "DastardV.C02.C02_sound_no_auto"),
     ("DastardV.Props.C02", "DastardV.C02.C02_after_reconfigure_full"),
     ("DastardV.Lemmas.Reconf", "DastardV.Trig.runChan_prepend"),
     ("DastardV.Props.C02", "DastardV.C02.C02_source_level"),
